@@ -149,7 +149,7 @@ def build(tier='quick'):
     message_classes(w)
     add_validator_contracts(w)
     add_constructor_contracts(w)
-    return Spec('C18', w, make_models, list(VALIDATORS) + CTORS, replay=replay,
+    return Spec('C18', w, make_models, list(VALIDATORS) + CTORS, replay=replay, regular_strings=True,
                 trusted=['z3 regular-expression / string theory', 'python re character classes translated to z3 regex (\\d and str.isdigit taken as ASCII digits; non-ASCII digits get an unconstrained verdict)',
                          'exception message text is opaque'],
                 assumed=['txdbus.message.DBusMessage._marshal: path header is encoded as ObjectPath and therefore validated (proved under C03 when claimed)'],
